@@ -55,7 +55,7 @@ WFAll(p) == /\ p.pan = <<>>
 StepOK01(r, n) ==
   LET a == r.case.hist[n]  o == r.steps[n] IN
   /\ WFAll(o.o1) /\ WFAll(o.o2)
-  /\ (a.op = "setcoords" =>
+  /\ (a.op \in {"setcoords", "newflat"} =>
         LET q == Side(o, a.to)  d == Deflate(q.k, a.v) IN
         /\ o.err = "none" /\ q.val = a.v /\ q.flat = d.flat /\ q.ends = d.ends /\ q.endss = d.endss)
   \* a value in which some coordinate has the wrong length is refused with a stride-mismatch error (what the receiver
@@ -68,17 +68,18 @@ Clause01(r, n) == LET o == r.steps[n] IN
     [] o.o2.pan # <<>> -> "panic:" \o o.o2.pan[1]
     [] ~(WFAll(o.o1) /\ WFAll(o.o2)) -> "ill-formed"
     [] r.case.hist[n].op = "setbad" -> "wrong-length-coordinate-not-refused:" \o o.err
-    [] OTHER -> "setcoords-not-lossless"
+    [] OTHER -> r.case.hist[n].op \o "-not-lossless"
 
 LClass(l) == IF l = "No" THEN "No" ELSE "any"
+S0(r) == IF "l2" \in DOMAIN r.case THEN St0x(r.case.k, r.case.l, r.case.l2) ELSE St0(r.case.k, r.case.l)
 Verdict(r) ==
   IF r.ev # "ok" THEN [ok |-> FALSE, sig |-> "geomops|" \o r.ev \o "|" \o r.case.k \o "|" \o LClass(r.case.l)
                                               \o "|" \o r.case.hist[Len(r.case.hist)].op, step |-> 0]
   ELSE IF Len(r.steps) # Len(r.case.hist) THEN [ok |-> FALSE, sig |-> "geomops|short-trace", step |-> 0]
   ELSE CASE MODE = "C02" ->
-         LET n == Check02(St0(r.case.k, r.case.l), r.case.hist, r.steps, 1) IN
+         LET n == Check02(S0(r), r.case.hist, r.steps, 1) IN
          IF n = 0 THEN [ok |-> TRUE]
-         ELSE LET s == StateAt(St0(r.case.k, r.case.l), r.case.hist, n) IN
+         ELSE LET s == StateAt(S0(r), r.case.hist, n) IN
               [ok |-> FALSE, step |-> n,
                sig |-> "geomops|" \o r.case.k \o "|" \o LClass(r.case.l) \o "|"
                        \o r.case.hist[n].op \o "|" \o Clause02(s, r.steps[n])]
